@@ -4,12 +4,12 @@ EXTENDS Integers, Sequences, FiniteSets, TLC, Json, IOUtils, P_C12
 Rec == ndJsonDeserialize(IOEnv.TRACE)
 VARIABLES l, mon, mode, bad
 tvars == <<l, mon, mode, bad>>
-TInit == l = 1 /\ mon = PInit([t \in Tracks |-> FALSE], 4) /\ mode = "skip" /\ bad = <<>>
+TInit == l = 1 /\ mon = PInit([t \in Tracks |-> FALSE], 4, 2) /\ mode = "skip" /\ bad = <<>>
 TNext ==
   /\ l <= Len(Rec)
   /\ l' = l + 1
   /\ LET e == Rec[l] IN
-     IF e.a = "reset" THEN mon' = PInit(e.persist, e.n) /\ mode' = "ok" /\ bad' = bad
+     IF e.a = "reset" THEN mon' = PInit(e.persist, e.n, e.depth) /\ mode' = "ok" /\ bad' = bad
      ELSE IF mode = "skip" \/ e.a = "end" THEN UNCHANGED <<mon, mode, bad>>
      ELSE LET r == Check(mon, e) IN
           IF r = "" THEN mon' = Upd(mon, e) /\ UNCHANGED <<mode, bad>>
